@@ -724,7 +724,7 @@ func init() {
 	vh.Register(&vh.Check{
 		ID: "C18", Level: "model_checking",
 		Technique:   "bounded-exhaustive enumeration of keep-alive rounds (per-peer situation x pool invalid list x strict x target x node kind x hosts returned) and of 3-round histories on the real Agent.UpdatePeers / AddPeers with a recording EthNode and a scripted pool, against an agent model with its own URI parser",
-		Rule:        "4 peers (IPv4, IPv6, loopback, no address) each in every situation {absent, local only, local and listed as active under the same host / another host / another port / no address / bare id, listed only} x 5 invalid lists (bare id, enode URI, id not connected locally) x strict x target ∈ {0,1,3} x {geth-light, parity-light, geth-full} x 0-2 returned hosts; after each round: set un-trusted == set disconnected == model set; peer request iff shortfall with Num = shortfall and Kind = own kind iff light; every returned host connected; failed update => no node call; 128 three-round histories",
+		Rule:        "4 peers (IPv4, IPv6, loopback, no address) each in every situation {absent, local only, local and listed as active under the same host / another host / another port / no address / bare id, listed only} x 5 invalid lists (bare id, enode URI, id not connected locally) x strict x target ∈ {0,1,3} x {geth-light, parity-light, geth-full} x 0-2 returned hosts; after each round: set un-trusted == set disconnected == model set; peer request iff shortfall with Num = shortfall and Kind = own kind iff light; every returned host connected; failed update => no node call; 128 three-round histories; ~1700 rounds through the real ethnode.RemoteNode geth / parity drivers over an in-process RPC server; nodes refusing every un-trust or every disconnect call",
 		Assumptions: []string{"node-side failures (ConnectPeer / DisconnectPeer errors) are outside the property"},
 		Units: func(tier string) []vh.Unit {
 			var us []vh.Unit
